@@ -732,10 +732,21 @@ def rule_token(rep: Report, rid="C18.token") -> None:
     ok = st.ext.get((selft, "line")) == ("param", p[1]) and st.ext.get((selft, "location")) == ("param", p[2])
     rep.ob(rid, "a token keeps the line and the location it was created with", ok, file=fi.file, line=fi.node.lineno, function=fi.qualname,
            expected="self.line = gherkin_line; self.location = location", found={k[1]: fmt(v, I) for k, v in st.ext.items()})
-    I, fi, tree, rv, st = _run("gherkin.token.Token.token_value")
-    rep.used_function(fi.qualname)
-    selft = ("param", fi.params()[0])
-    line = ("attr", selft, "line")
-    want = ("cond", line, ("attr", line, N.TRIMMED), const("EOF"))
-    rep.ob(rid, "a token's printable value is 'EOF' or its left-trimmed line", rv == want, file=fi.file, line=fi.node.lineno, function=fi.qualname,
-           expected=fmt(want, I), found=fmt(rv, I))
+    # the printable value the error messages quote: the Token method the error classes call (found by that use; the
+    # messages themselves are checked on their normal forms, into which it is inlined)
+    tcls = facts().cls("gherkin.token.Token")
+    em = facts().modules.get("gherkin.errors")
+    used = set()
+    for efi in (list(em.functions.values()) + [m_ for c_ in em.classes.values() for m_ in c_.methods.values()]) if em else []:
+        for n in ast.walk(efi.node):
+            if isinstance(n, ast.Call) and isinstance(n.func, ast.Attribute) and n.func.attr in tcls.methods and n.func.attr not in ("eof", "detach", "__init__") \
+                    and not n.args:
+                used.add(n.func.attr)
+    for nm in sorted(used):
+        I, fi, tree, rv, st = _run(f"gherkin.token.Token.{nm}")
+        rep.used_function(fi.qualname)
+        selft = ("param", fi.params()[0])
+        line = ("attr", selft, "line")
+        want = ("cond", line, ("attr", line, N.TRIMMED), const("EOF"))
+        rep.ob(rid, "a token's printable value is 'EOF' or its left-trimmed line", rv == want, file=fi.file, line=fi.node.lineno, function=fi.qualname,
+               expected=fmt(want, I), found=fmt(rv, I))
